@@ -257,13 +257,13 @@ Section WalkP.
 
   (* a directory that has been admitted (the root, or a child that is not disqualified):
      what the walk yields from it and below, given the children it descends into *)
-  Lemma admitted_sound cs n files subs L p :
+  Lemma admitted_sound cs n files subs L (X : list string) p :
     NoDup (map tname subs) -> (forall d, In d L -> In d subs) ->
     Forall (fun c => forall cs p,
               In p (map fst (walk excl markers false (render (cs ++ [tname c])) c)) ->
               (is_special (tname c) || E (cs ++ [tname c]) || carries_marker markers c) = false /\
               exists rel, p = render ((cs ++ [tname c]) ++ rel) /\ roots_in E markers (cs ++ [tname c]) c rel) subs ->
-    In p (map fst ((if has_project files then [(render cs, files ++ map tname subs)] else []) ++
+    In p (map fst ((if has_project files then [(render cs, X)] else []) ++
                    flat_map (descend (render cs)) (after_tests (has_project files) L))) ->
     exists rel, p = render (cs ++ rel) /\ roots_in E markers cs (Dir n files subs) rel.
   Proof.
@@ -282,7 +282,7 @@ Section WalkP.
         apply negb_true_iff in Hkeep. rewrite andb_comm in Hkeep. rewrite Hkeep, orb_false_r. exact Hdq.
   Qed.
 
-  Lemma admitted_complete cs n files subs rel :
+  Lemma admitted_complete cs n files subs (X : list string) rel :
     Forall (fun c => forall cs rel,
               (is_special (tname c) || E (cs ++ [tname c]) || carries_marker markers c) = false ->
               roots_in E markers (cs ++ [tname c]) c rel ->
@@ -290,7 +290,7 @@ Section WalkP.
                  (map fst (walk excl markers false (render (cs ++ [tname c])) c))) subs ->
     roots_in E markers cs (Dir n files subs) rel ->
     In (render (cs ++ rel))
-       (map fst ((if has_project files then [(render cs, files ++ map tname subs)] else []) ++
+       (map fst ((if has_project files then [(render cs, X)] else []) ++
                  flat_map (descend (render cs)) (after_tests (has_project files) subs))).
   Proof.
     intros IH Hr. rewrite map_app, in_app_iff. destruct rel as [|x r].
@@ -376,6 +376,42 @@ Section WalkP.
     apply admitted_complete with (n := n); [|exact Hr].
     rewrite Forall_forall in *. intros c Hc cs' rel' Hdq Hr'.
     apply child_exact; auto. split; [exact Hdq|]. exists rel'. auto.
+  Qed.
+
+  (* the listing of the root that the walk actually descends into: when the root is neither
+     special-named nor inside an excluded path, the first marker-named directory is taken out *)
+  Definition root_listing (bc : list string) (t : tree) : tree :=
+    match t with
+    | Dir n f subs =>
+      Dir n f (after_marker (negb (is_special (basename (render bc)) || E bc) && has_marker_dir markers subs) subs)
+    end.
+
+  Lemma rm_first_marker_nodup ds : NoDup (map tname ds) -> NoDup (map tname (rm_first_marker ds)).
+  Proof.
+    induction ds as [|d r IH]; cbn; [auto|]. intros H. inversion H as [|? ? Hn Hr]; subst.
+    destruct (is_marker markers (tname d)); [exact Hr|]. cbn. constructor; [|apply IH; exact Hr].
+    intros Hin. apply Hn. apply in_map_iff in Hin as [c [Hc1 Hc2]]. apply in_map_iff. exists c.
+    split; [exact Hc1|apply rm_first_marker_incl; exact Hc2].
+  Qed.
+
+  Lemma root_general t bc p : wf t ->
+    (In p (map fst (walk excl markers true (render bc) t)) <->
+     exists rel, p = render (bc ++ rel) /\ roots_in E markers bc (root_listing bc t) rel).
+  Proof.
+    destruct t as [n files subs]. intros Hwf. rewrite walk_unfold. cbv zeta. rewrite andb_false_r.
+    unfold excl at 1. rewrite str_excluded_render. fold E. cbn [root_listing].
+    set (L := after_marker _ subs).
+    pose proof (wf_children _ _ _ Hwf) as Hwfs. destruct Hwf as [Hnd [Hnames _]].
+    assert (HL : forall d, In d L -> In d subs).
+    { intros d Hd. unfold L, after_marker in Hd. destruct (negb _ && _); [apply rm_first_marker_incl|]; exact Hd. }
+    assert (HndL : NoDup (map tname L)).
+    { unfold L, after_marker. destruct (negb _ && _); [apply rm_first_marker_nodup|]; exact Hnd. }
+    rewrite Forall_forall in Hwfs, Hnames. split.
+    - intros Hin. eapply admitted_sound with (subs := L) (L := L); [exact HndL|auto| |exact Hin].
+      apply Forall_forall. intros c Hc cs' p'. apply child_exact; auto.
+    - intros [rel [-> Hr]]. apply admitted_complete with (n := n); [|exact Hr].
+      apply Forall_forall. intros c Hc cs' rel' Hdq Hr'.
+      apply child_exact; auto. split; [exact Hdq|]. exists rel'. auto.
   Qed.
 
   Lemma root_eligible t bc : has_project (tfiles t) = true ->
@@ -538,6 +574,17 @@ Section Headline.
     - intros Hin. destruct (root_sound ecs markers t bc p Hwf Hin) as [rel [Hp Hr]].
       exists rel. split; [exact Hp|]. apply is_root_roots_in. exact Hr.
     - intros [rel [-> Hr]]. apply root_complete; auto. apply is_root_roots_in. exact Hr.
+  Qed.
+
+  (* no guard at all: the walk is the specification, with "inside an excluded path" read by
+     character prefix, applied to the listing the walk descends into *)
+  Theorem discover_exact_general bc t p : wf t ->
+    (In p (walk_paths (render bc) t (map render ecs) user) <->
+     exists rel, p = render (bc ++ rel) /\
+                 is_root (string_excluded ecs) markers bc (root_listing ecs markers bc t) rel).
+  Proof.
+    intros Hwf. rewrite walk_paths_eq. rewrite (root_general ecs markers t bc p Hwf).
+    split; intros [rel [Hp Hr]]; exists rel; (split; [exact Hp|]); apply is_root_roots_in; exact Hr.
   Qed.
 
   Theorem discover_exact_partial bc t p :
@@ -864,3 +911,142 @@ Proof.
   cbv zeta. split; [|split; reflexivity].
   intros e _ _. destruct (String.eqb (fst e) "/B/r/lib/sub"); discriminate.
 Qed.
+
+(* ---- listings related by permutations at any depth ------------------------------------------ *)
+Inductive tperm : tree -> tree -> Prop :=
+| tp_refl t : tperm t t
+| tp_here n f f' s s' : Permutation f f' -> Permutation s s' -> tperm (Dir n f s) (Dir n f' s')
+| tp_below n f a c c' b : tperm c c' -> tperm (Dir n f (a ++ c :: b)) (Dir n f (a ++ c' :: b))
+| tp_trans t1 t2 t3 : tperm t1 t2 -> tperm t2 t3 -> tperm t1 t3.
+
+Lemma wf_intro n f subs :
+  NoDup (map tname subs) -> Forall (fun c => noslash (tname c) = true) subs -> Forall wf subs ->
+  wf (Dir n f subs).
+Proof.
+  intros H1 H2 H3. cbn. split; [exact H1|]. split; [exact H2|].
+  induction H3 as [|c r Hc Hr IH]; [exact I|]. split; [exact Hc|].
+  apply IH; [inversion H1; assumption|inversion H2; assumption].
+Qed.
+
+Lemma wf_parts n f subs : wf (Dir n f subs) ->
+  NoDup (map tname subs) /\ Forall (fun c => noslash (tname c) = true) subs /\ Forall wf subs.
+Proof. intros H. pose proof (wf_children _ _ _ H). destruct H as [H1 [H2 _]]. auto. Qed.
+
+Lemma same_tree_refl t : same_tree t t.
+Proof. intros rel. destruct (subdir t rel); [split; intros; reflexivity|exact I]. Qed.
+
+Lemma same_tree_trans t1 t2 t3 : same_tree t1 t2 -> same_tree t2 t3 -> same_tree t1 t3.
+Proof.
+  intros H12 H23 rel. specialize (H12 rel). specialize (H23 rel).
+  destruct (subdir t1 rel), (subdir t2 rel), (subdir t3 rel); try tauto.
+  destruct H12 as [A1 A2], H23 as [B1 B2]. split; intros x.
+  - rewrite A1. apply B1.
+  - rewrite A2. apply B2.
+Qed.
+
+Lemma find_child_app x a b :
+  find_child x (a ++ b) = match find_child x a with Some c => Some c | None => find_child x b end.
+Proof.
+  induction a as [|d a IH]; cbn; [reflexivity|]. destruct (String.eqb x (tname d)); [reflexivity|exact IH].
+Qed.
+
+Lemma below_same_tree n f a c c' b :
+  tname c = tname c' -> same_tree c c' -> same_tree (Dir n f (a ++ c :: b)) (Dir n f (a ++ c' :: b)).
+Proof.
+  intros Hn Hs rel. destruct rel as [|x r]; cbn [subdir tsubs tfiles].
+  - split; [intros; reflexivity|]. intros m. rewrite !map_app. cbn [map]. rewrite Hn. reflexivity.
+  - rewrite !find_child_app. destruct (find_child x a) as [d|].
+    + destruct (subdir d r); [split; intros; reflexivity|exact I].
+    + cbn [find_child]. rewrite <- Hn. destruct (String.eqb x (tname c)).
+      * apply Hs.
+      * destruct (find_child x b) as [d|]; [|exact I].
+        destruct (subdir d r); [split; intros; reflexivity|exact I].
+Qed.
+
+Lemma tperm_same_tree t t' : tperm t t' -> wf t -> same_tree t t' /\ wf t' /\ tname t = tname t'.
+Proof.
+  induction 1 as [t|n f f' s s' Hf Hs|n f a c c' b Hc IH|t1 t2 t3 H12 IH12 H23 IH23]; intros Hwf.
+  - split; [apply same_tree_refl|auto].
+  - destruct (wf_parts _ _ _ Hwf) as [H1 [H2 H3]]. split; [|split; [|reflexivity]].
+    + apply perm_same_tree; assumption.
+    + apply wf_intro.
+      * eapply Permutation_NoDup; [apply Permutation_map; exact Hs|exact H1].
+      * eapply Permutation_Forall; eassumption.
+      * eapply Permutation_Forall; eassumption.
+  - destruct (wf_parts _ _ _ Hwf) as [H1 [H2 H3]].
+    assert (Hwc : wf c) by (rewrite Forall_forall in H3; apply H3; apply in_elt).
+    destruct (IH Hwc) as [Hs [Hw' Hn]]. split; [|split; [|reflexivity]].
+    + apply below_same_tree; assumption.
+    + apply wf_intro.
+      * rewrite map_app in *. cbn [map] in *. rewrite <- Hn. exact H1.
+      * apply Forall_app in H2 as [Ha Hb]. apply Forall_app. split; [exact Ha|].
+        inversion Hb; subst. constructor; [rewrite <- Hn; assumption|assumption].
+      * apply Forall_app in H3 as [Ha Hb]. apply Forall_app. split; [exact Ha|].
+        inversion Hb; subst. constructor; assumption.
+  - destruct (IH12 Hwf) as [S12 [W2 N12]]. destruct (IH23 W2) as [S23 [W3 N23]].
+    split; [eapply same_tree_trans; eassumption|]. split; [exact W3|congruence].
+Qed.
+
+(* permuted listings, at any depth, give the same set (inside root_guard) *)
+Theorem discover_perm_free_partial ecs user bc t t' p :
+  wf t -> tperm t t' -> root_guard ecs (all_markers user) bc t = true ->
+  (In p (walk_paths (render bc) t (map render ecs) user) <->
+   In p (walk_paths (render bc) t' (map render ecs) user)).
+Proof.
+  intros Hwf Hp Hg. destruct (tperm_same_tree t t' Hp Hwf) as [Hs [Hwf' _]].
+  apply discover_order_free_partial; assumption.
+Qed.
+
+Example ex_tperm :
+  tperm ex_tree
+    (Dir "r" ["setup.py"]
+       [Dir "build" [] [Dir "x" ["setup.py"] []];
+        Dir "pkg" ["setup.py"; "__init__.py"] [];
+        Dir "lib2" ["setup.cfg"] [];
+        Dir "lib" ["setup.cfg"] [Dir "sub" ["pyproject.toml"] []; Dir "tests" ["setup.cfg"] []]]).
+Proof.
+  eapply tp_trans.
+  { apply (tp_below "r" ["setup.py"] [] _ (Dir "lib" ["setup.cfg"] [Dir "sub" ["pyproject.toml"] []; Dir "tests" ["setup.cfg"] []])).
+    apply tp_here; [apply Permutation_refl|apply perm_swap]. }
+  eapply tp_trans.
+  { apply (tp_below "r" ["setup.py"] [_; _] _ (Dir "pkg" ["setup.py"; "__init__.py"] []) [_]).
+    apply tp_here; [apply perm_swap|apply Permutation_refl]. }
+  cbn [app]. apply tp_here; [apply Permutation_refl|].
+  apply (Permutation_rev [_; _; _; _]).
+Qed.
+
+(* ---- the guards are decidable: the boolean versions computed by the model ------------------ *)
+Lemma all_rels_complete : forall rel t d, rel <> [] -> subdir t rel = Some d -> In rel (all_rels t).
+Proof.
+  induction rel as [|x r IH]; intros t d Hne Hd; [congruence|].
+  destruct t as [n f subs]. cbn [subdir tsubs] in Hd. cbn [all_rels].
+  destruct (find_child x subs) as [c|] eqn:Ec; [|discriminate].
+  apply find_child_in in Ec as [Hin <-]. apply in_flat_map. exists c. split; [exact Hin|].
+  destruct r as [|y r]; [left; reflexivity|]. right. apply in_map. eapply IH; [discriminate|exact Hd].
+Qed.
+
+Lemma alignedb_aligned ecs bc t : alignedb ecs bc t = true -> aligned ecs bc t.
+Proof.
+  unfold alignedb, aligned. rewrite forallb_forall. intros H ec rel d Hec Hne Hd Hp.
+  specialize (H rel (all_rels_complete rel t d Hne Hd)). rewrite forallb_forall in H.
+  specialize (H ec Hec). rewrite Hp in H. exact H.
+Qed.
+
+Lemma root_guardb_root_guard ecs user bc t :
+  root_guardb ecs user bc t = root_guard ecs (all_markers user) bc t.
+Proof. reflexivity. Qed.
+
+Theorem discover_exact_partial_dec ecs user bc t p :
+  wf t -> root_guardb ecs user bc t = true -> alignedb ecs bc t = true ->
+  (In p (walk_paths (render bc) t (map render ecs) user) <->
+   exists rel, p = render (bc ++ rel) /\ is_root (comp_excluded ecs) (all_markers user) bc t rel).
+Proof.
+  intros Hwf Hg Ha. apply discover_exact_partial; [exact Hwf|exact Hg|apply alignedb_aligned; exact Ha].
+Qed.
+
+Example ex_guards_dec :
+  root_guardb [["B"; "r"; "lib2"]] ["SKIP"] ["B"; "r"] ex_tree = true /\
+  alignedb [["B"; "r"; "lib2"]] ["B"; "r"] ex_tree = true /\
+  alignedb [["B"; "r"; "lib"]] ["B"; "r"] ex_tree = false /\
+  root_guardb [] ["MARK"; "SKIP"] ["B"; "r"] w_mark1 = false.
+Proof. repeat split; reflexivity. Qed.
